@@ -268,7 +268,22 @@ func (c *simCase) finishJobs(g expCfg) {
 			continue
 		}
 		if !t.IsCompleted() {
-			c.metricOp(t.Name, pick(c.rng, simValues))
+			// the collector reports once: a Trial whose log already holds an entry for the objective (a value or the
+			// `unavailable` marker) gets nothing more; the job just finishes
+			hasObjective := false
+			for _, e := range c.s.db.logs[t.Name] {
+				if e.name == "" {
+					hasObjective = true
+				}
+			}
+			if !hasObjective {
+				if c.rng.Intn(8) == 0 {
+					c.metricOp(t.Name, "unavailable")
+					c.tags["settled-with-unavailable-objective"] = true
+				} else {
+					c.metricOp(t.Name, pick(c.rng, simValues))
+				}
+			}
 			c.jobOp(t.Namespace, t.Name, true)
 		} else if len(c.s.db.logs[t.Name]) == 0 && t.DeletionTimestamp.IsZero() {
 			if c.rng.Intn(6) == 0 {
@@ -394,7 +409,21 @@ func runSim(rng *rand.Rand, tier string, k int) Case {
 		case op <= 7:
 			if len(ts) > 0 {
 				t := ts[rng.Intn(len(ts))]
-				c.recTrial(t.Namespace, t.Name, faulty, lagP)
+				if !t.IsRunning() && !t.IsCompleted() && t.IsCreated() && rng.Intn(5) == 0 {
+					// the reconcile that creates the run object is cut off before its status write (Running is never
+					// persisted), and the job finishes before the retry
+					v := c.views(0)
+					out := c.s.recTrial(t.Namespace, t.Name, v, 0, 1)
+					c.emit(fmt.Sprintf("SIM recTrial %s %s %d %d %s", t.Namespace, t.Name, c.s.view[kTrial], 0, abortTok(1)), out)
+					if rng.Intn(3) != 0 {
+						c.metricOp(t.Name, pick(c.rng, append([]string{"unavailable"}, simValues...)))
+					}
+					c.jobOp(t.Namespace, t.Name, rng.Intn(3) != 0)
+					c.recTrial(t.Namespace, t.Name, false, 0)
+					c.tags["job-finished-before-running-was-persisted"] = true
+				} else {
+					c.recTrial(t.Namespace, t.Name, faulty, lagP)
+				}
 			}
 		case op == 8:
 			if len(ts) > 0 {
